@@ -32,8 +32,15 @@ def p1(prog, ctx):
     for m, c in sorted(subs, key=lambda mc: mc[1].lineno):
         meths = prog.methods_of(c, inherited=False)
         f = meths.get("get_group_id")
+        template = False
         if f is None:
-            continue
+            # template method: the base class's get_group_id calls a hook that this class implements
+            base_f = prog.methods_of(c, inherited=True).get("get_group_id")
+            hooks = {x.func.attr for x in ast.walk(base_f) if isinstance(x, ast.Call) and isinstance(x.func, ast.Attribute)
+                     and dotted(x.func.value) == "self"} if base_f is not None else set()
+            if base_f is None or not (hooks & set(meths)):
+                continue
+            f, template = base_f, True
         n += 1
         # groups registered by the constructor
         init = prog.methods_of(c, inherited=True).get("__init__")
@@ -43,7 +50,7 @@ def p1(prog, ctx):
                 if isinstance(st, ast.Assign) and dotted(st.targets[0]) == "self.read_groups" and isinstance(st.value, ast.Set):
                     init_groups |= {src(e) for e in st.value.elts}
         from ..engine import inline
-        f = inline.inlined(prog, f)          # a registering helper (add to read_groups and return) is analysed in place
+        f = inline.inlined(prog, f, owner=c if template else None)     # helpers / hooks of this class are analysed in place
         for p in flow.paths(f):
             if p.exit == "raise":
                 continue
